@@ -32,7 +32,16 @@ type Case struct {
 	Layout   int    // ordering / extra lines variant of the interval state file
 	Prefix   string // base URL path prefix
 	Loopback bool   // go through a real loopback HTTP server instead of a RoundTripper
+	QZone    int    // the query time is also passed in this location (same instant): 1 +01:00, 2 zero-offset fixed zone, 3 -05:30
+	// BigLine: interval state files start with a txnActiveList line of this
+	// many bytes (the planet lists every open transaction id on one line).
+	BigLine int
+	// OwnNumber: numbered changeset state files carry their own number, as
+	// the planet's files before 2008004 do; state.yaml is off by one as ever.
+	OwnNumber bool
 }
+
+var qzones = []*time.Location{time.UTC, time.FixedZone("", 3600), time.FixedZone("", 0), time.FixedZone("", -(5*3600 + 1800))}
 
 var dirs = []string{"minute", "hour", "day", "changesets"}
 var base = time.Date(2020, 1, 1, 0, 0, 0, 0, time.UTC)
@@ -90,8 +99,11 @@ func (s *server) respond(path string) (int, string) {
 	}
 	if s.c.Kind == 3 {
 		// the planet's changeset state: the number inside is one less than the file name
-		_ = current
-		return 200, fmt.Sprintf("---\nlast_run: %s\nsequence: %d\n", fmtTime(ts, s.c.TimeFmt, true), seq-1)
+		inside := seq - 1
+		if s.c.OwnNumber && !current {
+			inside = seq
+		}
+		return 200, fmt.Sprintf("---\nlast_run: %s\nsequence: %d\n", fmtTime(ts, s.c.TimeFmt, true), inside)
 	}
 	lines := []string{
 		"#Sat Jul 16 06:14:03 UTC 2016",
@@ -107,6 +119,14 @@ func (s *server) respond(path string) (int, string) {
 		lines = []string{lines[3], lines[0], lines[5], lines[2], lines[1]}
 	case 2:
 		lines = []string{lines[2], lines[3]}
+	}
+	if s.c.BigLine > 0 {
+		var sb strings.Builder
+		sb.WriteString("txnActiveList=")
+		for sb.Len() < s.c.BigLine {
+			sb.WriteString("836439008,")
+		}
+		lines = append([]string{sb.String()}, lines...)
 	}
 	return 200, strings.Join(lines, "\n") + "\n"
 }
@@ -179,27 +199,28 @@ func check(c Case) error {
 	}
 	ctx, cancel := context.WithTimeout(context.Background(), 20*time.Second)
 	defer cancel()
-	var seq uint64
-	var st *replication.State
-	var err error
-	switch c.Kind {
-	case 0:
-		var n replication.MinuteSeqNum
-		n, st, err = ds.MinuteStateAt(ctx, q)
-		seq = uint64(n)
-	case 1:
-		var n replication.HourSeqNum
-		n, st, err = ds.HourStateAt(ctx, q)
-		seq = uint64(n)
-	case 2:
-		var n replication.DaySeqNum
-		n, st, err = ds.DayStateAt(ctx, q)
-		seq = uint64(n)
-	case 3:
-		var n replication.ChangesetSeqNum
-		n, st, err = ds.ChangesetStateAt(ctx, q)
-		seq = uint64(n)
+	lookup := func(q time.Time) (seq uint64, st *replication.State, err error) {
+		switch c.Kind {
+		case 0:
+			var n replication.MinuteSeqNum
+			n, st, err = ds.MinuteStateAt(ctx, q)
+			seq = uint64(n)
+		case 1:
+			var n replication.HourSeqNum
+			n, st, err = ds.HourStateAt(ctx, q)
+			seq = uint64(n)
+		case 2:
+			var n replication.DaySeqNum
+			n, st, err = ds.DayStateAt(ctx, q)
+			seq = uint64(n)
+		case 3:
+			var n replication.ChangesetSeqNum
+			n, st, err = ds.ChangesetStateAt(ctx, q)
+			seq = uint64(n)
+		}
+		return
 	}
+	seq, st, err := lookup(q)
 	// classification: a missing file strictly inside the range the search has to cover
 	lastNT = false
 	for s := uint64(c.First) + 1; s < cur; s++ {
@@ -224,6 +245,15 @@ func check(c Case) error {
 	}
 	if !st.Timestamp.Equal(states[want]) {
 		return harness.Failf("C19/state-content", "state %d decoded with timestamp %v, file says %v", want, st.Timestamp, states[want])
+	}
+	if c.QZone%len(qzones) != 0 {
+		// the same instant carried in another location: same answer, same requests
+		n1 := srv.n
+		srv.n = 0
+		seq2, st2, err2 := lookup(q.In(qzones[c.QZone%len(qzones)]))
+		if err2 != nil || st2 == nil || seq2 != seq || srv.n != n1 {
+			return harness.Failf("C19/zone-dependence", "t=base+%ds passed in UTC: sequence %d after %d requests; the same instant in location %v: sequence %d after %d requests (err %v)", c.Query, seq, n1, qzones[c.QZone%len(qzones)], seq2, srv.n, err2)
+		}
 	}
 	return nil
 }
@@ -308,13 +338,20 @@ func genCase(t *rapid.T) Case {
 	c.TimeFmt = rapid.IntRange(0, 1).Draw(t, "timefmt")
 	c.Layout = rapid.IntRange(0, 2).Draw(t, "layout")
 	c.Prefix = rapid.SampledFrom([]string{"", "", "/mirror/osm"}).Draw(t, "prefix")
+	c.QZone = rapid.SampledFrom([]int{0, 0, 1, 2, 3}).Draw(t, "qzone")
+	if c.Kind != 3 && rapid.IntRange(0, 7).Draw(t, "bigLine?") == 0 {
+		c.BigLine = rapid.SampledFrom([]int{4000, 65000, 65536, 70000, 200000}).Draw(t, "bigLine")
+	}
+	if c.Kind == 3 {
+		c.OwnNumber = rapid.IntRange(0, 2).Draw(t, "ownNumber") == 0
+	}
 	return c
 }
 
 func TestStateAt(t *testing.T) {
 	harness.Run(t, harness.Spec[Case]{
 		Name: "state-at", N: 10000,
-		Rule:  "replication directories served by an in-process http.RoundTripper: kind in {minute,hour,day,changesets}; sequence range [first,cur] with a missing prefix of any length (first up to 3 000 000, also around the 999/1000 path boundary); strictly increasing irregular timestamps; missing-file patterns none / isolated / runs / dense / sparse; query before all, between, equal to a state's timestamp, after all; planet layouts (sequenceNumber=/timestamp= with escaped colons, extra lines in three orders; changeset YAML with last_run/sequence and the off-by-one number, two time layouts), optional base-URL path prefix; oracle = first available state with timestamp >= t (cur if later than all), every request path exactly /replication/<dir>/state.{txt,yaml} or /AAA/BBB/CCC.state.txt, returned number = file name, request count <= 8*(ceil(log2(cur))+2)+4*missing+16 (far, gap-free directories: 8*L+2*L^2+16 with L=log2(cur)+2, the missing prefix need not be stepped over there); non-trivial = a missing file strictly inside [first,cur]",
+		Rule:  "replication directories served by an in-process http.RoundTripper: kind in {minute,hour,day,changesets}; sequence range [first,cur] with a missing prefix of any length (first up to 3 000 000, also around the 999/1000 path boundary); strictly increasing irregular timestamps; missing-file patterns none / isolated / runs / dense / sparse; query before all, between, equal to a state's timestamp, after all; planet layouts (sequenceNumber=/timestamp= with escaped colons, extra lines in three orders; changeset YAML with last_run/sequence and the off-by-one number - a third of the changeset directories with numbered files that carry their own number, as the planet's files before 2008004 -, two time layouts; one interval directory in eight with a leading txnActiveList line of 4 KB..200 KB), the query instant also passed in a non-UTC location (same answer and same number of requests), optional base-URL path prefix; oracle = first available state with timestamp >= t (cur if later than all), every request path exactly /replication/<dir>/state.{txt,yaml} or /AAA/BBB/CCC.state.txt, returned number = file name, request count <= 8*(ceil(log2(cur))+2)+4*missing+16 (far, gap-free directories: 8*L+2*L^2+16 with L=log2(cur)+2, the missing prefix need not be stepped over there); non-trivial = a missing file strictly inside [first,cur]",
 		Gen:   genCase,
 		Check: check,
 		Classify: func(c Case) (bool, []string) {
